@@ -269,6 +269,7 @@ def run(prog, chk):
     refill_transparency(prog, chk)
     source_accounting(prog, chk)
     drained_mark(prog, chk)
+    lookahead_drop(prog, chk)
     r3 = chk.rule("R3-window-rebased", "whenever get_more_chars moves the buffered data it re-bases text_start, tvalue_start, "
                   "next_char and buffer_limit", primary=False, floor=2)
     g = prog.fn(REFILL_ROOT)
@@ -623,3 +624,62 @@ def drained_mark(prog, chk):
                     r7.ok("%s:L%s" % (fn.name, a.get("l")), "status tested against overflow on every path from the conversion (L%s)" % call.get("l"))
     if n < 1:
         raise Broken("no drained mark (positive eof_status store) found after a ucnv_toUnicode call")
+
+
+def lookahead_drop(prog, chk):
+    """R8: get_first_char reads one character of look-ahead after an initial CR and delivers it unless it completes a CR LF pair.
+    The only character that may be dropped is LF: every branch condition that looks at the look-ahead character (the second
+    element of the buffer) compares it with UCHAR_NL by == or != - a class test would also swallow a second CR or an extra
+    end-of-line character, which is a line terminator of its own."""
+    r8 = chk.rule("R8-only-lf-completes-cr", "the look-ahead character read after an initial CR is tested against UCHAR_NL only "
+                  "(== / !=): nothing but the LF of a CR LF pair is ever dropped", primary=False, floor=1)
+    fn = prog.fn("get_first_char")
+    n = 0
+
+    def second_slot(inner):
+        inner = strip(inner)
+        return isinstance(inner, dict) and inner.get("k") == "bin" and inner.get("op") == "+" and \
+            (path(strip(inner.get("lhs"))) or "").endswith("buffer") and const(inner.get("rhs")) == 1
+    # locals that point at the second slot (`UChar *second = scanner->buffer + 1;`)
+    ptrs = set()
+    for (b0, i0, r0, x) in fn.eval_sites("decl"):
+        for v in x.get("vars", []):
+            if v.get("init") is not None and second_slot(v["init"]):
+                ptrs.add(v["name"])
+    for (b0, i0, r0, x) in fn.eval_sites("asg"):
+        if x.get("op") == "=" and second_slot(x.get("rhs")) and path(strip(x.get("lhs"))):
+            ptrs.add(path(strip(x.get("lhs"))))
+
+    def is_lookahead(e):
+        e = strip(e)
+        if not isinstance(e, dict):
+            return False
+        if e.get("k") == "index" and const(e.get("idx")) == 1 and (path(strip(e.get("base"))) or "").endswith("buffer"):
+            return True
+        if e.get("k") == "index" and const(e.get("idx")) == 0 and path(strip(e.get("base"))) in ptrs:
+            return True
+        if e.get("k") == "un" and e.get("op") == "*":
+            return second_slot(e.get("e")) or path(strip(e.get("e"))) in ptrs
+        return False
+    for b in fn.blocks.values():
+        c = cfgq.cond_of(fn, b)
+        if c is None or len(b.succs) != 2:
+            continue
+        if not any(is_lookahead(x) for x in walk(c)):
+            continue
+        n += 1
+        cs = strip(c)
+        okk = isinstance(cs, dict) and cs.get("k") == "bin" and cs.get("op") in ("==", "!=") and \
+            ((is_lookahead(cs.get("lhs")) and const(cs.get("rhs")) == 0x0A) or (is_lookahead(cs.get("rhs")) and const(cs.get("lhs")) == 0x0A))
+        key = "get_first_char:L%s" % (b.term.get("l") if b.term else "?")
+        if okk:
+            r8.ok(key, "compares the look-ahead character with UCHAR_NL")
+        else:
+            from ..facts import show as _show
+            r8.violation(fn.file, fn.name, b.term.get("l") if b.term else fn.line, "lookahead-test-not-lf",
+                         "the look-ahead character after an initial CR is tested with `%s`, not by comparison with UCHAR_NL: "
+                         "characters other than the LF of a CR LF pair (a second CR, an extra end-of-line character) can be "
+                         "dropped, and every later line number is one too low" % _show(cs)[:70])
+    if n < 1:
+        raise Broken("get_first_char: no test of the look-ahead character found")
+
